@@ -301,7 +301,10 @@ def check(pid, tier, seed, out=print):
             jobs.append((pid, tier, seed, "enum", a, b))
     if hasattr(mod, "strategy") and budget.get("examples"):
         shards = budget.get("shards", NPROC)
-        per = max(1, budget["examples"] // shards)
+        # VERIF_BUDGET_SCALE: internal knob of tools/run_benign.py (a reduced random part for the false-alarm sweep);
+        # registered commands never set it
+        scale = float(os.environ.get("VERIF_BUDGET_SCALE") or 1)
+        per = max(1, int(budget["examples"] * scale) // shards)
         for s in range(shards):
             jobs.append((pid, tier, seed, "hyp", s, per))
     if hasattr(mod, "extra"):
